@@ -23,7 +23,7 @@ TEXT = {
         "technique": "Verus postcondition accept <=> adc_ok(bytes) and field equalities on the extracted AdcV3Packet::try_from",
         "design_ref": "DESIGN.md §4 C02",
         "level_text": "AdcV3Packet::try_from(&[u8]) is proved to return Ok exactly when the mathematical predicate adc_ok (transcribed from the property statement) holds, for slices of every length, and every field of the result is proved equal to its big-endian view of the input.",
-        "level_note": _COMMON_NOTE + " Assumed leaves: sample collection (chunks_exact/map/collect), 64-sample sum, [msw,lsw].concat(), Vec->[u8;8], MAC-table loop; std from_be_bytes contracts.",
+        "level_note": _COMMON_NOTE + " The sample collection (chunks_exact/map/collect) and the 64-sample baseline sum are rewritten into the index loops that define them (rules R15, R16) and verified. Remaining assumed leaves: [msw,lsw].concat(), Vec->[u8;8], the MAC-table look-up (BoardId::try_from([u8;6]), complete Kani proof over all MACs); std from_be_bytes contracts.",
     },
     "C03": {
         "technique": "Verus postcondition accept <=> chunk_ok(bytes) with both CRC words bound to exact byte ranges; coverage lemma",
@@ -35,13 +35,13 @@ TEXT = {
         "technique": "Verus postcondition accept <=> pwb_ok(bytes) with loop invariants on the real bit-mask and channel loops",
         "design_ref": "DESIGN.md §4 C05",
         "level_text": "PwbV2Packet::try_from(&[u8]) is proved to accept exactly the slices satisfying pwb_ok for every length and channel count, the channel lists are proved to be the set bits of the masks in ascending order mapped through the readout map, data is the i16 view of the blocks, and waveform_at is proved to return exactly the block of the requested channel.",
-        "level_note": _COMMON_NOTE + " Assumed leaves: 80-bit mask assembly (copy_from_slice + from_le_bytes), rev/map/collect of channel indices, chunks_exact sample collection, MAC-table loop, u128::leading_zeros contract.",
+        "level_note": _COMMON_NOTE + " The three collect chains (channel indices, samples) and the waveform sum/scan are rewritten into the index loops that define them (rules R13, R15-R17) and verified. Remaining assumed leaves: 80-bit mask assembly (copy_from_slice + from_le_bytes), the MAC-table look-up (complete Kani proof over all MACs), u128::leading_zeros contract.",
     },
     "C04": {
-        "technique": "Verus contract over the multiset of chunks on the real reassembly glue + order-independence lemmas; bounded native enumeration of the assumed leaves",
+        "technique": "Verus contract over the multiset of chunks on the real reassembly code (scans and fold as verified loops) + order-independence lemmas; bounded native enumeration",
         "design_ref": "DESIGN.md §4 C04",
         "level_text": "PwbV2Packet::try_from(Vec<Chunk>) is proved, for every number of chunks, to return DeviceIdMismatch / ChannelIdMismatch exactly when the multiset mixes boards / chips, and otherwise the verdict of the documented ladder (missing-or-duplicated id, missing end flag, early end flag, payload size, decode of the id-ordered concatenation) on an id-sorted arrangement of the same multiset; pure lemmas show that this arrangement, and hence every verdict after the density check including the decoded packet, is unique for the multiset.",
-        "level_note": _COMMON_NOTE + " Assumed leaves (cross-checked by native enumeration of every multiset of <=3 (quick) / <=4 (thorough) chunks in every order, labelled bounded): the five iter().position scans, sort_unstable_by_key (permutation, sorted by id), the payload fold. The position reported by MissingChunk in the non-dense case is proved for the sorted arrangement but its independence of the arrangement is only enumerated. chunks.len() <= 2^32 (machine assumption).",
+        "level_note": _COMMON_NOTE + " The five iter().position scans and the payload fold are rewritten into the index loops that define them (rules R13, R14) and verified. Remaining assumed leaf: sort_unstable_by_key (permutation, sorted by id), cross-checked with everything else by native enumeration of every multiset of <=4 (quick) / <=5 (thorough) chunks in every order (labelled bounded); PwbV2Packet::try_from(&[u8]) and BoardId::try_from(u32) enter with the contracts proved in units pwb / chunk. The position reported by MissingChunk in the non-dense case is proved for the sorted arrangement but its independence of the arrangement is only enumerated. chunks.len() <= 2^32 (machine assumption).",
     },
     "C07": {
         "technique": "complete Kani proofs of the real element parsers + Verus stream lemmas (longest prefix, split invariance) + bounded native cross-check of the combinator wiring",
